@@ -48,6 +48,9 @@ CHECKS = {
     text="Sticky.tla model-checked over all interleavings of 2 dialogs x 3 backends x {initial, tagged answer, in-dialog request of 7 methods, unrelated, backend SUBSCRIBE answered, BYE answered, NOTIFY terminated} to depth 8 (quick) / 10 (thorough); the method-name exclusion of the pinned tree is shown to violate Sticky. "
          "TLC-sampled and random histories (1-50 dialogs, 2-6 backends, both directions, 10 methods, tags with '-', equal URIs) run through a real Proxy loop with Backend doubles registered via the real AddBackend event path; TLC judges every dispatch against `answered`.",
     note=TB + "dialog identity in the trace spec is the declarative one of C16; lifetime expiry is C15's business.", ref="5/C04"),
+ "C17": dict(cat="model_checking", tech="TLA+ metamorphic twin relation JudgeC17: TLC checks that the line-level operators of the pipeline model commute with regrouping on every recipe (leg M), emits the recipes; two identical real proxies are stepped in lockstep on respelled / re-laid-out twins and TLC evaluates the twin relation on alpha(outputs)",
+    text="Request universe (Route/Via/Record-Route lists of up to 3 entries in every layout x 4 (quick) / 7 (thorough) header orders x relaying paths) and response universe (11 Via shapes x layouts x 7 statuses): the model's outputs for a layout and for the flat layout are twin-related (TwinOK); on the real code each recipe is rendered once, its twin gets every header name independently respelled and every list re-cut, both run on two identical proxies with the same history; TLC compares destination, Via/Route/Record-Route stacks, canonical-name/value sequence of the remaining headers, body, Content-Length count.",
+    note=TB + "nothing is compared with an expectation; a change breaking another property identically for both twins is invisible here by design.", ref="5/C17"),
 }
 NA_REASON = "check not built yet (work in progress; see DESIGN.md section 9)"
 
